@@ -301,6 +301,24 @@ FK_Leaves == <<[p |-> pA, vals |-> {I(1), Str("x")}, extra |-> FALSE],
                [p |-> pSX, vals |-> {I(1), I(2)}, extra |-> FALSE],
                [p |-> <<"Z">>, vals |-> {I(7)}, extra |-> TRUE]>>
 
+\* family "failing" (C12): user callables that raise on chosen inputs
+FR_Kinds == {"opt", "pred", "val", "fnapp", "ds", "apply", "switch", "bind", "case", "coalesce", "cached", "coll"}
+FR_Preds == {"raise", "eq"}
+FR_Consts == {I(1)}
+FR_Paths == {pA, pB}
+FR4_Kinds == {"opt", "fnapp", "coalesce", "cached"}
+FR4_Paths == {pB}
+FR_Fns == {"g"}
+FR_Bodies == {"f"}
+FR_Disp == <<I(1), I(2)>>
+FR_Cbs == {"", "cb"}
+FR_Effs == {<<>>, <<"e1">>}
+FR_Raises == {<<"f", <<I(1)>>>>, <<"f", <<>>>>, <<"g", <<I(2)>>>>, <<"g", <<Tv("f", <<I(2)>>)>>>>,
+              <<"cb", <<Tv("f", <<I(3)>>)>>>>, <<"e1", <<Tv("f", <<I(0)>>)>>>>}
+FR_Leaves == <<[p |-> pA, vals |-> {I(0), I(1), I(2), I(3)}, extra |-> FALSE],
+               [p |-> pB, vals |-> {I(1), I(2)}, extra |-> FALSE],
+               [p |-> <<"Z">>, vals |-> {I(7)}, extra |-> TRUE]>>
+
 -----------------------------------------------------------------------------
 \* one self-contained CASE line per observation: the graph, the tables, the call and everything
 \* the specification prescribes about it
